@@ -287,15 +287,31 @@ func ruleC18_4(c *Ctx) {
 			c.bad("watchYml watches the configuration directory", p.pos(watch.Pos()), "nothing is watched")
 		}
 	}
-	// every successful, enabled reload reaches the removal loop
+	// every successful, enabled reload reaches the removal loop (in parseAuthIp or in the helper that applies the list)
 	var del ssa.Instruction
-	allInstrs(parse, func(in ssa.Instruction) {
+	p.allInstrsDeep(parse, func(in ssa.Instruction) {
 		if ci, ok := in.(ssa.CallInstruction); ok && strings.HasSuffix(staticCalleeName(ci.Common()), "hashmap.HashMap).Del") {
 			del = in
 		}
 	})
 	if del == nil {
 		return // C18.2 reports it
+	}
+	if g := del.Parent(); g != parse {
+		// the helper must be reached on every successful path of parseAuthIp, then the analysis continues inside it
+		li := lift(del, parse)
+		reached := li != nil
+		if li != nil {
+			for _, r := range returnsReachable(parse) {
+				rs := results(r.(*ssa.Return))
+				if len(rs) > 0 && isNilConst(rs[len(rs)-1]) && !dominatesInstr(li, r) {
+					reached = false
+				}
+			}
+		}
+		c.check(reached, "parseAuthIp: the list is applied on every successful reload", posOr(c, li, parse), "the applying helper dominates every `return nil`",
+			"parseAuthIp can return success without applying the decoded list")
+		parse = g
 	}
 	loops := loopsOf(parse)
 	dl := outermostLoop(loops, del.Block())
